@@ -8,7 +8,7 @@ directory and what every transaction against it answered.
                    n ≤ B(cfg) processor executions — no crash, no panic, no timeout;
   and loading itself ended with accept or reject — it neither crashed, panicked nor hung.
 
-`B` is computed from the loaded graphs: per direction 1 + D + D² + … (depth `dfsFuel + 1`, `D` the largest
+`B` is computed from the graphs the connection lists describe (no validation involved): per direction 1 + D + D² + … (depth `dfsFuel + 1`, `D` the largest
 out-degree), summed over all flows and both directions.
 -/
 namespace LunarVerif.C05
@@ -51,11 +51,23 @@ def flowBound (f : Flow) : Nat := dirBound f.req + dirBound f.res
 /-- B: bound on the processor executions of one transaction -/
 def bound (fls : List Flow) : Nat := (fls.map flowBound).sum
 
+/-- the graphs the YAML connection lists describe, built WITHOUT the loader's validation (so that the
+    bound does not depend on the loader's verdict): reference-free flows through the shared
+    `buildConnections`, flows with references through `buildX` -/
+def rawFlow (pts : List PType) (fs : List XFlow) (f : XFlow) : Option Flow :=
+  if f.refFree then
+    match buildConnections pts f.rep.procs .req {} f.rep.req, buildConnections pts f.rep.procs .res {} f.rep.res with
+    | .ok rq, .ok rs => some ⟨f.name, rq, rs⟩
+    | _, _ => none
+  else
+    match buildX pts fs f.name .req buildFuel f.name {} f.req, buildX pts fs f.name .res buildFuel f.name {} f.res with
+    | .ok s1, .ok s2 => some ⟨f.name, s1.g, s2.g⟩
+    | _, _ => none
+
+def rawFlows (c : Cfg) : List Flow := c.flows.filterMap (rawFlow c.ptypes c.flows)
+
 /-- B(cfg) -/
-def cfgBound (c : Cfg) : Nat :=
-  match load c with
-  | .accept fls => bound fls
-  | _ => 0
+def cfgBound (c : Cfg) : Nat := bound (rawFlows c)
 
 def txnOk (b : Nat) : TxnObs → Bool
   | .ok n => n ≤ b
